@@ -432,6 +432,31 @@ def ladder(k: int, stem_len: int = 1, gap: int = 0) -> Tuple[str, tuple]:
     return (seq_for(n, k), tuple(sorted(pairs)))
 
 
+def with_hairpins_inside(chords, lens, gap: int, n_hairpins: int) -> Tuple[str, tuple]:
+    """the structure of a chord diagram (stem lengths `lens`) with n_hairpins small hairpins inserted into the unpaired gap
+    after endpoint block `gap`: crossing stems that lie far apart in the 5'->3' order of the stems (long molecules)"""
+    seq, pairs = chord_structure(chords, True, lens)
+    k = len(chords)
+    lens = list(lens) if lens else [1] * k
+    owner = {}
+    for t, (a, b) in enumerate(chords):
+        owner[a] = t
+        owner[b] = t
+    pos = 0
+    for e in range(gap + 1):
+        pos += lens[owner[e]] + 1
+    # pos = index (1-based) of the unpaired nucleotide after block `gap`; the hairpins go right after it
+    block = 6 * n_hairpins
+    moved = []
+    for i, j in pairs:
+        moved.append((i + block if i > pos else i, j + block if j > pos else j))
+    for h in range(n_hairpins):
+        a = pos + 6 * h + 1
+        moved.append((a, a + 4))
+    n = len(seq) + block
+    return (seq_for(n, k), tuple(sorted(moved)))
+
+
 def kissing_chain(k: int, lens=None) -> Tuple[str, tuple]:
     """k helices in a row, each crossing only its neighbours (a1 a2 b1 a3 b2 ... ak b(k-1) bk): ONE group of k crossing
     stems whose conflict graph is a path - two levels suffice, the enumeration over stem orders has k! members"""
